@@ -206,7 +206,7 @@ def rule_flags(facts):
         return (o[0], o[1] if o[0] in ("arg", "local") else None, tuple(pp[1] for pp in proj if isinstance(pp, list) and pp[0] == "f"))
 
     n_a = 0
-    for rec in facts.all_fns(["glaredb_core"]):
+    for rec in facts.all_fns(["glaredb_core"], contains=("operators::hash_join", "operators::nested_loop_join")):
         if "operators::hash_join" not in rec["id"] and "operators::nested_loop_join" not in rec["id"]:
             continue
         s = str(rec["bbs"])
